@@ -221,7 +221,7 @@ def compare_stream(st, flag_re, max_report=20, diff_violation=None, diff_ignore=
             n += 1
             if fr and fr.search(g):
                 if len(flagged) < max_report:
-                    flagged.append({"op": op[:400], "go": g[:400], "lean": l[:400]})
+                    flagged.append({"op": op[:4000], "go": g[:4000], "lean": l[:4000]})
                 else:
                     flagged.append(None)
             # the Go-only oracle suffix is judged by the flag path above, the model never prints it
@@ -234,12 +234,12 @@ def compare_stream(st, flag_re, max_report=20, diff_violation=None, diff_ignore=
             if g != l and diff_violation and diff_violation(op, g, l):
                 # for this property a disagreement with the reference model is itself the violation
                 if len(flagged) < max_report:
-                    flagged.append({"op": op[:400], "go": g[:400], "lean": l[:400]})
+                    flagged.append({"op": op[:4000], "go": g[:4000], "lean": l[:4000]})
                 else:
                     flagged.append(None)
             if g != l:
                 if len(diffs) < max_report:
-                    diffs.append({"line": n, "op": op[:400], "go": g[:400], "lean": l[:400]})
+                    diffs.append({"line": n, "op": op[:4000], "go": g[:4000], "lean": l[:4000]})
                 else:
                     diffs.append(None)
             if n % 9973 == 1 and len(samples) < 12:
